@@ -1604,4 +1604,39 @@ example : Canon (.surd (.int (-3)) (.int 1) 2) := by
   have h1 : e * e ≤ 2 := Int.le_of_dvd (by decide) hdiv
   nlinarith
 
+/-! ### negation and absolute value of surds -/
+
+
+/-- negation of a surd negates both coordinates (and stays a canonical surd) -/
+theorem neg_surd_spec (a b : Coeff) (n : Int) (hx : Canon (.surd a b n)) :
+    ∃ z, Num.neg (some (.surd a b n)) = .ok (some z) ∧ Canon z ∧
+      Denotes z (-coeffQ a) (-coeffQ b) n := by
+  obtain ⟨ha, hb, hb0, hn, hsq⟩ := hx
+  obtain ⟨a', ha1, ha2, ha3⟩ := rneg_spec (x := toRational a) (ne_of_gt (canonCoeff_d_pos ha))
+  obtain ⟨b', hb1, hb2, hb3⟩ := rneg_spec (x := toRational b) (ne_of_gt (canonCoeff_d_pos hb))
+  obtain ⟨z, hz, hc, hd⟩ := build_spec ha2 hb2 hn hsq
+  refine ⟨z, by simp [Num.neg, ha1, hb1, hz], hc, ?_⟩
+  rw [ha3, hb3] at hd; exact hd
+
+/-- absolute value of a surd: the operand itself unless its sign (`surdSign`, i.e. the sign of
+`a + b·√n` by `surdSign_sound`) is negative, then its negation -/
+theorem abs_surd_spec (a b : Coeff) (n : Int) (hx : Canon (.surd a b n)) :
+    ∃ z, Num.abs (some (.surd a b n)) = .ok (some z) ∧ Canon z ∧
+      (surdSign (coeffQ a) (coeffQ b) n = -1 → Denotes z (-coeffQ a) (-coeffQ b) n) ∧
+      (surdSign (coeffQ a) (coeffQ b) n ≠ -1 → z = .surd a b n) := by
+  obtain ⟨z, hz, hc, hd⟩ := neg_surd_spec a b n hx
+  have hx' := hx
+  obtain ⟨ha, hb, hb0, hn, hsq⟩ := hx
+  have hs := ssign_eq (toRational a) (toRational b) n (canonCoeff_d_pos ha) (canonCoeff_d_pos hb)
+  obtain ⟨a', ha1, ha2, ha3⟩ := rneg_spec (x := toRational a) (ne_of_gt (canonCoeff_d_pos ha))
+  obtain ⟨b', hb1, hb2, hb3⟩ := rneg_spec (x := toRational b) (ne_of_gt (canonCoeff_d_pos hb))
+  by_cases h : surdSign (toRational a).toQ (toRational b).toQ n = -1
+  · refine ⟨z, ?_, hc, fun _ => hd, fun h' => absurd h h'⟩
+    have : Num.neg (some (.surd a b n)) = (do
+        let a' ← rneg (toRational a); let b' ← rneg (toRational b); let z ← build a' b' n; pure (some z)) := rfl
+    rw [this] at hz
+    simp only [Num.abs, hs, ok_bind, h, if_true]
+    exact hz
+  · exact ⟨.surd a b n, by simp [Num.abs, hs, h], hx', fun h' => absurd h' h, fun _ => rfl⟩
+
 end C20
